@@ -396,6 +396,38 @@ func (c *Ctx) ruleTagPriority(rule string) {
 	own := c.P.LookupFunc("catalog", "getChildrenTagsDirective")
 	par := c.P.LookupFunc("catalog", "getParentTagsDirective")
 	pt := c.P.LookupFunc("catalog", "Catalog.pathTag")
+	if own == nil || par == nil {
+		// found by role: the two functions called by tags that hand back a directive; the one that looks at
+		// .Parent is the URL source, the other the method's own Tags child
+		ast.Inspect(f.Decl.Body, func(n ast.Node) bool {
+			call, ok := n.(*ast.CallExpr)
+			if !ok {
+				return true
+			}
+			cal := callee(pk, call)
+			g := c.fnOf(cal)
+			if cal == nil || g == nil || g.Pkg != pk {
+				return true
+			}
+			res := cal.Type().(*types.Signature).Results()
+			if res.Len() != 1 || namedType(res.At(0).Type()) != prog.ModulePath+"/directive.Directive" {
+				return true
+			}
+			usesParent := false
+			ast.Inspect(g.Decl.Body, func(m ast.Node) bool {
+				if fld := fieldSelNode(g.Pkg, m); fld != nil && fld.Name() == "Parent" {
+					usesParent = true
+				}
+				return true
+			})
+			if usesParent {
+				par = cal
+			} else {
+				own = cal
+			}
+			return true
+		})
+	}
 	oc, pc, tc := callsIn(pk, f.Decl.Body, own), callsIn(pk, f.Decl.Body, par), callsIn(pk, f.Decl.Body, pt)
 	if len(oc) != 1 || len(pc) != 1 || len(tc) != 1 {
 		r.Bad(rule, "tags", "the three sources of tags (own Tags, URL Tags, path tag) are not each consulted exactly once", c.pos(f.Decl.Pos()))
